@@ -94,6 +94,16 @@ func c10Construct(c *Ctx, in []string, want []string, label string) bool {
 		return false
 	}
 	det["kept"] = got
+	// the caller reuses their buffer: the list must not notice
+	for i := range full {
+		full[i] = fmt.Sprintf("overwritten-%d", i)
+	}
+	again, rerr2 := readOutList(wl)
+	c.Exec(len(again))
+	if rerr2 != nil || !equalStrings(again, got) {
+		c.Violate("list-aliases-caller-slice", fmt.Sprintf("list built from %q (%s): after the caller overwrote their own slice the list reads %q instead of %q", in, label, again, got), det)
+		return false
+	}
 	if int(wl.Size()) != len(got) || int(spg.NewWLRecipe(1, wl).Size()) != len(got) {
 		c.Violate("size-mismatch", fmt.Sprintf("Size()=%d but %d words can be drawn", wl.Size(), len(got)), det)
 		return false
